@@ -194,3 +194,37 @@ func zzH_C01_scan() {
 		zz.Reach("scanned 2+ rows")
 	}
 }
+
+// zzH_C17_readerFunc: ReaderFunc's reader passes the user's rows through, for
+// every sequence of chunk sizes the user function chooses, and zeroes the
+// destination before handing it to the user.
+func zzH_C17_readerFunc() {
+	n := zz.AnyIntIn("rows", 0, 3)
+	data := sliceio.ZZNewModel("data", n)
+	type state struct{ pos int }
+	dirty := false
+	op := ReaderFunc(1, func(shard int, st *state, ks []int64, vs []int64) (int, error) {
+		for i := range ks {
+			if ks[i] != 0 || vs[i] != 0 {
+				dirty = true
+			}
+		}
+		rem := n - st.pos
+		max := len(ks)
+		if rem < max {
+			max = rem
+		}
+		c := zz.AnyIntIn("userChunk", 0, max)
+		copy(ks, data.Keys[st.pos:st.pos+c])
+		copy(vs, data.Vals[st.pos:st.pos+c])
+		st.pos += c
+		if st.pos == n && (c == 0 || zz.AnyBool("eofWithRows")) {
+			return c, sliceio.EOF
+		}
+		return c, nil
+	})
+	r := op.Reader(0, nil)
+	d := sliceio.ZZDriveReaderOpt(r, 5, 1, 2, "dst", "ReaderFunc leaves destination rows beyond those it reports untouched")
+	d.ZZExpect(data.Keys, data.Vals, "ReaderFunc")
+	zz.Assert(!dirty, "the destination is zeroed before it is handed to the user function")
+}
